@@ -395,23 +395,73 @@ def concretise(rng, cls, uid):
 # ----------------------------------------------------------------------------
 
 class Box:
-    """One real WBEMListener on a loopback port with a logging callback."""
+    """One real WBEMListener on a loopback port with a logging callback.
+    `qcap` > 0: listener with max_ind_queue_size=qcap (else the library
+    default).  The tester can hold the callback (a slow consumer): the
+    callback thread then sits in the callback with one indication and the
+    queue fills up."""
 
-    def __init__(self):
+    def __init__(self, qcap=0):
         self.lock = threading.Lock()
         self.log = {}
         self.listener = None
         self.port = None
         self.stop_error = ""
         self.handler_errors = []
+        self.want_qcap = qcap
+        self.qcap = 0
+        self.gate = threading.Event()
+        self.gate.set()
+        self.in_callback = 0
+        self.accepted = set()   # markers answered 'success', not yet delivered
+        self.dirty = False      # something may sit in the queue unobserved
 
     def _callback(self, indication, host):
-        try:
-            key = str(indication["Sender"])
-        except Exception:  # noqa
-            key = "?"
         with self.lock:
-            self.log[key] = self.log.get(key, 0) + 1
+            self.in_callback += 1
+        try:
+            self.gate.wait(120)
+            try:
+                key = str(indication["Sender"])
+            except Exception:  # noqa
+                key = "?"
+            with self.lock:
+                self.log[key] = self.log.get(key, 0) + 1
+        finally:
+            with self.lock:
+                self.in_callback -= 1
+
+    def hold(self):
+        self.gate.clear()
+
+    def release(self):
+        self.gate.set()
+
+    def held(self):
+        return not self.gate.is_set()
+
+    def seen_drained(self, wait):
+        """Has the tester SEEN that nothing sits in the indication queue or
+        in the callback: the callback is not held, every indication that was
+        answered 'success' has arrived in the callback log, the callback is
+        not running and the listener reports an empty queue (waits up to
+        `wait` seconds for that).  Positive evidence only: False means 'not
+        seen', which the requirement machine treats as 'may be full'."""
+        if self.held() or self.dirty:
+            return False
+        t0 = time.time()
+        while True:
+            with self.lock:
+                self.accepted = {m for m in self.accepted
+                                 if self.log.get(m, 0) < 1}
+                ok = not self.accepted and self.in_callback == 0
+            if ok and self.listener.ind_queue_empty():
+                with self.lock:
+                    if self.in_callback == 0:
+                        return True
+            if time.time() - t0 >= wait:
+                return False
+            time.sleep(0.005)
 
     def start(self):
         last = None
@@ -420,7 +470,12 @@ class Box:
             s.bind(("127.0.0.1", 0))
             port = s.getsockname()[1]
             s.close()
-            lst = pywbem.WBEMListener("127.0.0.1", http_port=port)
+            if self.want_qcap:
+                lst = pywbem.WBEMListener("127.0.0.1", http_port=port,
+                                          max_ind_queue_size=self.want_qcap)
+            else:
+                lst = pywbem.WBEMListener("127.0.0.1", http_port=port)
+            self.qcap = int(lst.max_ind_queue_size)
             lst.logger.setLevel(logging.CRITICAL + 10)
             lst.add_callback(self._callback)
             try:
@@ -453,6 +508,7 @@ class Box:
                 "callback": bool(ct is None or ct.is_alive())}
 
     def stop(self):
+        self.gate.set()
         try:
             self.listener.stop()
         except Exception as exc:  # noqa  (C16's business; recorded only)
@@ -715,21 +771,65 @@ def next_uid():
         return _uid[0]
 
 
-def run_history(box, rng, classes, reqs=None):
+def normalise_script(steps):
+    """Tester script (from TLC) -> script that ends with: callback released,
+    a valid indication."""
+    out = []
+    held = False
+    for op, cls in steps:
+        if op == "block":
+            if held:
+                continue
+            held = True
+        elif op == "release":
+            if not held:
+                continue
+            held = False
+        out.append((op, dict(cls) if op == "req" else None))
+    if held:
+        out.append(("release", None))
+    k = max([i for i, (op, _) in enumerate(out) if op == "release"] or [-1])
+    if not (out and out[-1][0] == "req" and not deviations(out[-1][1])
+            and k < len(out) - 1):
+        out.append(("req", dict(VALID)))
+    return out
+
+
+def run_history(box, rng, classes, reqs=None, steps=None, drain_wait=0.0):
     """Send the requests of one history (one connection each, sequentially;
     connections on which the server waits stay open until the end), then read
-    the callback log.  `reqs`: already concretised requests (replay)."""
+    the callback log.  `reqs`: already concretised requests (replay).
+    `steps`: tester script [(req, class) | (block, -) | (release, -)] instead
+    of `classes`; `drain_wait`: how long the tester is prepared to wait before
+    a request to see the queue drained (0: it never claims to have seen it)."""
+    if steps is None:
+        steps = [("req", c) for c in classes]
+    classes = [c for op, c in steps if op == "req"]
     h = History(classes)
+    h.steps = steps
+    h.box_qcap = box.want_qcap
     pending = []
     done = []
-    for idx, cls in enumerate(classes):
+    idx = -1
+    for op, cls in steps:
+        if op == "block":
+            box.hold()
+            continue
+        if op == "release":
+            box.release()
+            continue
+        idx += 1
         req = reqs[idx] if reqs else concretise(rng, cls, next_uid())
+        env = {"qcap": box.qcap,
+               "drained": bool(drain_wait > 0 and not pending and
+                               box.seen_drained(drain_wait))}
         try:
             c = Conn(box.port, req.raw)
         except OSError as exc:
             o = blank_obs("hang")
             info = {"connect_error": repr(exc)}
-            done.append((req, o, info))
+            box.dirty = True
+            done.append((req, o, info, env))
             continue
         out = c.first()
         for _ in range(3):
@@ -758,16 +858,31 @@ def run_history(box, rng, classes, reqs=None):
             c.close()
         if req.has_msgid and not o["reqid"]:
             o["reqid"] = [ord(ch) for ch in req.msgid]
-        done.append((req, o, info))
+        if o["status"] == 200 and o["leaf"] == [] and o["bodywf"]:
+            with box.lock:
+                box.accepted.add(req.marker)
+        elif o["outcome"] == "waiting":
+            pass    # open connection: resolved when the peer gives up (below)
+        elif not (o["outcome"] == "response" and o["nresp"] == 1 and
+                  (o["status"] >= 400 or o["leaf"] == ["ERROR"])):
+            # no clear refusal and no clear acceptance: the tester can no
+            # longer tell what sits in the queue of this listener
+            box.dirty = True
+        done.append((req, o, info, env))
+    box.release()
     # peers give up on the requests the server waits on
     for req, c, info in pending:
         c.half_close()
-        c.drain(2.0)
+        if not c.drain(2.0):
+            box.dirty = True
         info["after_peer_close"] = c.buf[:60].decode("latin-1")
+        if info["after_peer_close"].startswith("HTTP/1.0 200"):
+            with box.lock:
+                box.accepted.add(req.marker)
         c.close()
     # let the callback thread catch up: every 200/success answer (also those
     # written after a peer close) names an indication that must show up
-    want = [req.marker for req, o, info in done
+    want = [req.marker for req, o, info, env in done
             if o["status"] == 200 and o["leaf"] == [] and o["bodywf"]]
     want += [req.marker for req, c, info in pending
              if info.get("after_peer_close", "").startswith("HTTP/1.0 200")]
@@ -776,9 +891,9 @@ def run_history(box, rng, classes, reqs=None):
         if all(box.delivered(m) >= 1 for m in want):
             break
         time.sleep(0.01)
-    for req, o, info in done:
+    for req, o, info, env in done:
         o["ndeliv"] = box.delivered(req.marker)
-        h.events.append({"kind": "req", "cls": req.cls, "obs": o,
+        h.events.append({"kind": "req", "cls": req.cls, "obs": o, "env": env,
                          "alive": {"server": True, "callback": True}})
         info["raw_request"] = req.raw[:1500].decode("latin-1")
         info["raw_request_full"] = req.raw
@@ -788,6 +903,8 @@ def run_history(box, rng, classes, reqs=None):
         info["verb"] = req.verb
         h.info.append(info)
     h.events.append({"kind": "end", "cls": dict(VALID),
-                     "obs": blank_obs("response"), "alive": box.alive()})
+                     "obs": blank_obs("response"),
+                     "env": {"qcap": box.qcap, "drained": False},
+                     "alive": box.alive()})
     h.info.append({})
     return h
